@@ -28,14 +28,14 @@ func H_C03_addressing() {
 	// history: earlier executions with arbitrary numbers of calls (incl. > 9)
 	for _, nm := range names {
 		pre := []int{0, vxrt.Param("pre", 2)}[vxrt.Choice("pre-calls", 2)]
-		t0 := newT(nm)
+		t0 := vxNewT(nm)
 		for k := 0; k < pre; k++ {
 			c.MatchSnapshot(t0, "v")
 		}
 		t0.end()
 	}
 
-	ts := [2]*mockT{newT(names[0]), newT(names[1])}
+	ts := [2]*vxMockT{vxNewT(names[0]), vxNewT(names[1])}
 	ord := [2]int{0, 0}
 	steps := vxrt.Len("steps", 1, vxrt.Param("steps", 3))
 	for s := 0; s < steps; s++ {
@@ -47,7 +47,7 @@ func H_C03_addressing() {
 			c.MatchSnapshot(ts[w], "v")
 			ord[w]++
 			if len(ts[w].errors) == 0 {
-				_, _, err := refPrev("["+names[w]+" - "+strconv.Itoa(ord[w])+"]", path)
+				_, _, err := vxRefPrev("["+names[w]+" - "+strconv.Itoa(ord[w])+"]", path)
 				vxrt.Assert(err == nil, "C03:kth-call-addresses-slot-k")
 			}
 		case 1: // a mismatching call (fails unless the slot is new)
@@ -57,11 +57,11 @@ func H_C03_addressing() {
 			c.MatchJSON(ts[w], "{")
 			ord[w]++
 		case 3: // a matcher error
-			c.MatchJSON(ts[w], `{"a":1}`, &envMatcher{errs: []match.MatcherError{{Reason: errEnv, Matcher: "Any", Path: "p"}}})
+			c.MatchJSON(ts[w], `{"a":1}`, &vxEnvMatcher{errs: []match.MatcherError{{Reason: vxErrEnv, Matcher: "Any", Path: "p"}}})
 			ord[w]++
 		default: // this test's execution ends; a new one begins
 			ts[w].end()
-			ts[w] = newT(names[w])
+			ts[w] = vxNewT(names[w])
 			ord[w] = 0
 		}
 		vxrt.Assert(testsRegistry.running[path][names[w]] == ord[w], "C03:ordinal-is-call-index")
@@ -70,7 +70,7 @@ func H_C03_addressing() {
 	ts[0].end()
 	ts[1].end()
 	vxrt.Assert(testsRegistry.running[path][names[0]] == 0 && testsRegistry.running[path][names[1]] == 0, "C03:ordinal-reset-at-end")
-	t3 := newT(names[0])
+	t3 := vxNewT(names[0])
 	c.MatchSnapshot(t3, "v")
 	vxrt.Assert(testsRegistry.running[path][names[0]] == 1, "C03:re-execution-starts-at-1")
 	t3.end()
@@ -80,10 +80,10 @@ func H_C03_addressing() {
 // other slot replays as, nor reorders or drops pre-existing entries.
 func H_C03_isolation() {
 	vxrt.CI(false)
-	calibrateStorage()
+	vxCalibrateStorage()
 	dir := vxrt.Dir()
 	path := dir + "/f.snap"
-	os_MkdirAll(dir)
+	vxOs_MkdirAll(dir)
 	k := vxrt.Len("frames", 0, vxrt.Param("frames", 2))
 	n := vxrt.Param("n", 3)
 	ids := []string{"TestA - 1", "TestB - 1", "TestA - 2"}
@@ -91,16 +91,16 @@ func H_C03_isolation() {
 	content := ""
 	for i := 0; i < k; i++ {
 		bodies[i] = vxrt.Text("body", vxrt.Len("body-len", 0, n))
-		vxrt.Assume(noCRAtEOL(bodies[i]))
-		vxrt.Assume(noTerminatorLine(bodies[i]))
-		content += frame(ids[i], bodies[i])
+		vxrt.Assume(vxNoCRAtEOL(bodies[i]))
+		vxrt.Assume(vxNoTerminatorLine(bodies[i]))
+		content += vxFrame(ids[i], bodies[i])
 	}
-	writeFile(path, content)
+	vxWriteFile(path, content)
 
 	// one operation: add a new id, or update an existing one
 	newBody := vxrt.Text("new", vxrt.Len("new-len", 0, n))
-	vxrt.Assume(noCRAtEOL(newBody))
-	vxrt.Assume(noTerminatorLine(newBody))
+	vxrt.Assume(vxNoCRAtEOL(newBody))
+	vxrt.Assume(vxNoTerminatorLine(newBody))
 	target := vxrt.Choice("target", k+1)
 	if target == k {
 		vxrt.Reach("add")
@@ -115,30 +115,30 @@ func H_C03_isolation() {
 		if i == target {
 			continue
 		}
-		got, _, err := refPrev("["+ids[i]+"]", path)
+		got, _, err := vxRefPrev("["+ids[i]+"]", path)
 		vxrt.Assert(err == nil, "C03:other-entry-still-found")
 		vxrt.Assert(vxrt.Eq(got, bodies[i]), "C03:other-entry-value-unchanged")
 	}
 	if target == k {
-		got, _, err := refPrev("[TestC - 1]", path)
+		got, _, err := vxRefPrev("[TestC - 1]", path)
 		vxrt.Assert(err == nil && vxrt.Eq(got, newBody), "C03:new-entry-replays")
 	} else {
-		got, _, err := refPrev("["+ids[target]+"]", path)
+		got, _, err := vxRefPrev("["+ids[target]+"]", path)
 		vxrt.Assert(err == nil && vxrt.Eq(got, newBody), "C03:updated-entry-replays")
 	}
 	// the file is exactly the frames in their original order (target replaced / new appended)
 	want := ""
 	for i := 0; i < k; i++ {
 		if i == target {
-			want += frame(ids[i], newBody)
+			want += vxFrame(ids[i], newBody)
 		} else {
-			want += frame(ids[i], bodies[i])
+			want += vxFrame(ids[i], bodies[i])
 		}
 	}
 	if target == k {
-		want += frame("TestC - 1", newBody)
+		want += vxFrame("TestC - 1", newBody)
 	}
-	vxrt.Assert(vxrt.Eq(readFile(path), want), "C03:file-is-frames-in-order")
+	vxrt.Assert(vxrt.Eq(vxReadFile(path), want), "C03:file-is-frames-in-order")
 }
 
 // H_C03_lookalike: an earlier entry whose body has a line that merely contains or ends with
@@ -152,12 +152,12 @@ func H_C03_lookalike() {
 	path := dir + "/f.snap"
 	decoy := []string{"see [TestB - 1]", " [TestB - 1]", "[TestB - 1] x", "[TestB - 10]", "x[TestB - 1]", "[TestB - 1", "TestB - 1]"}[vxrt.Choice("decoy-line", 7)]
 	bodyA := "first\n" + decoy + "\nnot-b"
-	writeFile(path, frame("TestA - 1", bodyA)+frame("TestB - 1", "vb")+frame("TestB - 2", "vb2"))
-	before := readFile(path)
+	vxWriteFile(path, vxFrame("TestA - 1", bodyA)+vxFrame("TestB - 1", "vb")+vxFrame("TestB - 2", "vb2"))
+	before := vxReadFile(path)
 	spell := []string{dir, dir + "/", dir + "/.", dir + "/x/.."}
 	c1 := WithConfig(Dir(spell[0]), Filename("f"), Update(false))
 	c2 := WithConfig(Dir(spell[vxrt.Choice("second-spelling", 4)]), Filename("f"), Update(false))
-	ta, tb := newT("TestA"), newT("TestB")
+	ta, tb := vxNewT("TestA"), vxNewT("TestB")
 	c1.MatchSnapshot(tb, "vb")
 	c2.MatchSnapshot(tb, "vb2")
 	c2.MatchSnapshot(ta, bodyA)
@@ -165,5 +165,5 @@ func H_C03_lookalike() {
 	tb.end()
 	vxrt.Assert(len(tb.errors) == 0 && len(tb.logs) == 0, "C03:kth-call-addresses-slot-k")
 	vxrt.Assert(len(ta.errors) == 0 && len(ta.logs) == 0, "C03:other-entry-value-unchanged")
-	vxrt.Assert(readFile(path) == before, "C03:file-unchanged-by-passing-calls")
+	vxrt.Assert(vxReadFile(path) == before, "C03:file-unchanged-by-passing-calls")
 }
